@@ -971,3 +971,519 @@ func RSplitStride(c *core.Ctx) {
 		c.Anchor("loops over Match.Groups() that append to the result of Split")
 	}
 }
+
+// ---------------------------------------------------------------------------
+// R-EOLNL: $ and \Z hold at the very end AND in front of a final newline (in
+// Multiline mode $ holds in front of every newline).  A loop may be made
+// atomic in front of them only if it cannot take that newline: wherever
+// canBeMadeAtomic accepts NtEol or NtEndZ as the successor, the same
+// conjunction keeps '\n' out of the loop (n.Ch != '\n', !n.Set.CharIn('\n')).
+// ---------------------------------------------------------------------------
+
+func REolNl(c *core.Ctx) {
+	c.Rule("R-EOLNL", "in canBeMadeAtomic (and the predicates it hands its tests to) every alternative that accepts NtEol or NtEndZ as successor of a loop also tests the loop against '\\n' in the same conjunction: $ / \\Z hold before a newline the loop could give back, so a loop that can match '\\n' must keep its backtracking (only \\z, NtEnd, needs no such test)", 4)
+	p := c.P
+	syn := p.Pkg("syntax")
+	info := syn.TypesInfo
+	fd, _ := p.DeclOf(p.LookupFunc("syntax", "RegexNode.canBeMadeAtomic"))
+	tField := p.LookupField("syntax", "RegexNode", "T")
+	if fd == nil || tField == nil {
+		c.Anchor("syntax.RegexNode.canBeMadeAtomic / RegexNode.T")
+		return
+	}
+	c.Visit("syntax.(*RegexNode).canBeMadeAtomic")
+	units := []*ast.FuncDecl{fd}
+	ast.Inspect(fd.Body, func(x ast.Node) bool {
+		if call, ok := x.(*ast.CallExpr); ok {
+			if fn := core.Callee(info, call); fn != nil && fn.Pkg() == syn.Types && strings.Contains(strings.ToLower(core.BaseName(fn)), "overlap") {
+				if d, _ := p.DeclOf(fn); d != nil && d.Body != nil {
+					dup := false
+					for _, u := range units {
+						if u == d {
+							dup = true
+						}
+					}
+					if !dup {
+						units = append(units, d)
+					}
+				}
+			}
+		}
+		return true
+	})
+	n := 0
+	mentionsKind := func(e ast.Expr) string {
+		found := ""
+		ast.Inspect(e, func(y ast.Node) bool {
+			be, ok := y.(*ast.BinaryExpr)
+			if !ok || be.Op != token.EQL || core.FieldOf(info, be.X) != tField {
+				return true
+			}
+			if id, ok := ast.Unparen(be.Y).(*ast.Ident); ok {
+				if k, ok := info.ObjectOf(id).(*types.Const); ok && (core.BaseName(k) == "NtEol" || core.BaseName(k) == "NtEndZ") {
+					found = core.BaseName(k)
+				}
+			}
+			return true
+		})
+		return found
+	}
+	mentionsNewline := func(e ast.Expr) bool {
+		found := false
+		ast.Inspect(e, func(y ast.Node) bool {
+			if bl, ok := y.(*ast.BasicLit); ok && bl.Kind == token.CHAR {
+				if k, ok := core.ConstInt(info, bl); ok && k == '\n' {
+					found = true
+				}
+			}
+			return true
+		})
+		return found
+	}
+	var visit func(e ast.Expr)
+	visit = func(e ast.Expr) {
+		e = ast.Unparen(e)
+		if be, ok := e.(*ast.BinaryExpr); ok && be.Op == token.LOR {
+			// a disjunction of bare kind tests stays one alternative: (T == NtEnd || T == NtEol) with nothing else
+			if mentionsKind(be) != "" && !mentionsNewline(be) {
+				l, r := ast.Unparen(be.X), ast.Unparen(be.Y)
+				_, lOr := l.(*ast.BinaryExpr)
+				_, rOr := r.(*ast.BinaryExpr)
+				_ = lOr
+				_ = rOr
+			}
+			visit(be.X)
+			visit(be.Y)
+			return
+		}
+		kind := mentionsKind(e)
+		if kind == "" {
+			return
+		}
+		n++
+		c.Check(mentionsNewline(e), fmt.Sprintf("canBeMadeAtomic / alternative #%d accepting %s keeps '\\n' out of the loop", n, kind), e.Pos(), "`%s` accepts %s as successor without testing the loop against '\\n': in front of $ / \\Z a loop over newlines has to be able to give one back (`(?m)a\\n+$` on \"a\\n\\nb\")", types.ExprString(e), kind)
+	}
+	for _, u := range units {
+		ast.Inspect(u.Body, func(x ast.Node) bool {
+			switch y := x.(type) {
+			case *ast.IfStmt:
+				visit(y.Cond)
+			case *ast.ReturnStmt:
+				for _, r := range y.Results {
+					if isBoolExpr(info, r) {
+						visit(r)
+					}
+				}
+			case *ast.CaseClause:
+				for _, e := range y.List {
+					if isBoolExpr(info, e) {
+						visit(e)
+					}
+				}
+			}
+			return true
+		})
+	}
+	if n == 0 {
+		c.Anchor("alternatives accepting NtEol / NtEndZ in canBeMadeAtomic")
+	}
+}
+
+// ---------------------------------------------------------------------------
+// R-LOOPONCE: the body of a loop ends an atomic context only if the loop
+// cannot come round again.  In eliminateEndingBacktracking the walk steps from
+// a Loop / Lazyloop straight into its body (skipping the check that the end of
+// one iteration is compatible with the start of the next) only under N <= 1.
+// A fixed count {3} still iterates: (?:[ab]a*){2} must be able to give back
+// what the first iteration's a* took.
+// ---------------------------------------------------------------------------
+
+func RLoopOnce(c *core.Ctx) {
+	c.Rule("R-LOOPONCE", "in eliminateEndingBacktracking the loop arm descends into the loop's body without the last-expression compatibility check only under a condition every alternative of which bounds the maximum iteration count by one (X.N == 1, X.N <= 1, X.N < 2): M == N (a repeater) is not enough, its iterations still follow one another", 1)
+	p := c.P
+	syn := p.Pkg("syntax")
+	info := syn.TypesInfo
+	fd, _ := p.DeclOf(p.LookupFunc("syntax", "RegexNode.eliminateEndingBacktracking"))
+	nField := p.LookupField("syntax", "RegexNode", "N")
+	if fd == nil || nField == nil {
+		c.Anchor("syntax.RegexNode.eliminateEndingBacktracking / RegexNode.N")
+		return
+	}
+	c.Visit("syntax.(*RegexNode).eliminateEndingBacktracking")
+	n := 0
+	boundsByOne := func(e ast.Expr) bool {
+		for _, cj := range conjuncts(e) {
+			be, ok := ast.Unparen(cj).(*ast.BinaryExpr)
+			if !ok || core.FieldOf(info, be.X) != nField {
+				continue
+			}
+			k, ok := core.ConstInt(info, be.Y)
+			if !ok {
+				continue
+			}
+			if (be.Op == token.EQL && k <= 1) || (be.Op == token.LEQ && k <= 1) || (be.Op == token.LSS && k <= 2) {
+				return true
+			}
+		}
+		return false
+	}
+	ast.Inspect(fd.Body, func(x ast.Node) bool {
+		cc, ok := x.(*ast.CaseClause)
+		if !ok {
+			return true
+		}
+		isLoopArm := false
+		for _, e := range cc.List {
+			if id, ok := ast.Unparen(e).(*ast.Ident); ok {
+				if k, ok := info.ObjectOf(id).(*types.Const); ok && (core.BaseName(k) == "NtLoop" || core.BaseName(k) == "NtLazyloop") {
+					isLoopArm = true
+				}
+			}
+		}
+		if !isLoopArm {
+			return true
+		}
+		for _, st := range cc.Body {
+			ifs, ok := st.(*ast.IfStmt)
+			if !ok {
+				continue
+			}
+			// does the then-branch step into Children[0] of the walker?
+			steps := false
+			ast.Inspect(ifs.Body, func(y ast.Node) bool {
+				if as, ok := y.(*ast.AssignStmt); ok && len(as.Lhs) == 1 && len(as.Rhs) == 1 {
+					if ie, ok := ast.Unparen(as.Rhs[0]).(*ast.IndexExpr); ok {
+						if sel, ok := ast.Unparen(ie.X).(*ast.SelectorExpr); ok && sel.Sel.Name == "Children" && types.ExprString(sel.X) == types.ExprString(as.Lhs[0]) {
+							steps = true
+						}
+					}
+				}
+				return true
+			})
+			if !steps {
+				continue
+			}
+			n++
+			all := true
+			var dis func(e ast.Expr)
+			dis = func(e ast.Expr) {
+				e = ast.Unparen(e)
+				if be, ok := e.(*ast.BinaryExpr); ok && be.Op == token.LOR {
+					dis(be.X)
+					dis(be.Y)
+					return
+				}
+				if !boundsByOne(e) {
+					all = false
+				}
+			}
+			dis(ifs.Cond)
+			c.Check(all, fmt.Sprintf("eliminateEndingBacktracking / direct descent #%d into a loop body is for loops that run at most once", n), ifs.Pos(), "`%s` lets the walk treat the body of a loop that iterates more than once as the end of the atomic context: what the first iteration's trailing loop consumed can no longer be given back to the second", types.ExprString(ifs.Cond))
+		}
+		return true
+	})
+	if n == 0 {
+		c.Anchor("the direct descent into a loop body in eliminateEndingBacktracking")
+	}
+}
+
+// ---------------------------------------------------------------------------
+// R-TEXTIDX: an index into the input text that a loop moves forward is tested
+// against an upper bound before it is used.  For every `text[v]` (text a
+// []rune parameter or Runner.Runtext, v a plain variable that the function
+// increments) some condition that dominates the access — or stands in front of
+// it in the same && chain — compares v with an upper bound (v < X, v <= X,
+// X > v, v != X).  It does not prove the bound right; it proves there is one:
+// dropping `end < endAt` from a scan loop leaves the access unguarded.
+// ---------------------------------------------------------------------------
+
+func RTextIdx(c *core.Ctx) {
+	c.Rule("R-TEXTIDX", "in package regexp2 every read text[v] of the input (a []rune parameter or Runner.Runtext) whose index v is a variable the function advances (v++, v += k, a for-loop variable) is preceded, on every path, by a comparison that bounds v from above (in a dominating branch condition, the loop condition, or to the left in the same && chain)", 3)
+	p := c.P
+	root := p.Pkg("")
+	info := root.TypesInfo
+	runtext := p.LookupField("", "Runner", "Runtext")
+	n := 0
+	for _, fd := range p.FuncDecls(root) {
+		if fd.Body == nil || p.IsTestFile(fd.Pos()) {
+			continue
+		}
+		name := core.DeclName(root, fd)
+		// variables the function advances
+		adv := map[types.Object]bool{}
+		ast.Inspect(fd.Body, func(x ast.Node) bool {
+			switch y := x.(type) {
+			case *ast.IncDecStmt:
+				if id, ok := y.X.(*ast.Ident); ok && y.Tok == token.INC {
+					adv[info.ObjectOf(id)] = true
+				}
+			case *ast.AssignStmt:
+				if y.Tok == token.ADD_ASSIGN && len(y.Lhs) == 1 {
+					if id, ok := y.Lhs[0].(*ast.Ident); ok {
+						adv[info.ObjectOf(id)] = true
+					}
+				}
+			}
+			return true
+		})
+		// ... and never moves back: a variable that is also decremented walks a stretch whose bounds
+		// were established before the walk (runematch / refmatch compare lengths first)
+		ast.Inspect(fd.Body, func(x ast.Node) bool {
+			switch y := x.(type) {
+			case *ast.IncDecStmt:
+				if id, ok := y.X.(*ast.Ident); ok && y.Tok == token.DEC {
+					delete(adv, info.ObjectOf(id))
+				}
+			case *ast.AssignStmt:
+				if y.Tok == token.SUB_ASSIGN && len(y.Lhs) == 1 {
+					if id, ok := y.Lhs[0].(*ast.Ident); ok {
+						delete(adv, info.ObjectOf(id))
+					}
+				}
+			}
+			return true
+		})
+		if len(adv) == 0 {
+			continue
+		}
+		isText := func(e ast.Expr) bool {
+			t := info.TypeOf(e)
+			if t == nil {
+				return false
+			}
+			sl, ok := t.Underlying().(*types.Slice)
+			if !ok || !types.Identical(sl.Elem(), types.Typ[types.Rune]) {
+				return false
+			}
+			if f := core.FieldOf(info, e); f != nil {
+				return f == runtext
+			}
+			if id, ok := ast.Unparen(e).(*ast.Ident); ok {
+				if v, ok := info.ObjectOf(id).(*types.Var); ok {
+					// a parameter
+					if fd.Type.Params != nil {
+						for _, f := range fd.Type.Params.List {
+							for _, nm := range f.Names {
+								if info.ObjectOf(nm) == v {
+									return true
+								}
+							}
+						}
+					}
+				}
+			}
+			return false
+		}
+		boundsAbove := func(cond ast.Expr, val bool, v types.Object) bool {
+			found := false
+			for _, cj := range conjunctsOrNegDisjuncts(core.EdgeFact{Cond: cond, Value: val}) {
+				be, ok := ast.Unparen(cj.e).(*ast.BinaryExpr)
+				if !ok {
+					continue
+				}
+				isV := func(e ast.Expr) bool {
+					id, ok := ast.Unparen(e).(*ast.Ident)
+					return ok && info.ObjectOf(id) == v
+				}
+				// v (+k) OP X
+				lhsV := isV(be.X)
+				if b2, ok := ast.Unparen(be.X).(*ast.BinaryExpr); ok && b2.Op == token.ADD && (isV(b2.X) || isV(b2.Y)) {
+					lhsV = true
+				}
+				rhsV := isV(be.Y)
+				switch {
+				case lhsV && cj.val && (be.Op == token.LSS || be.Op == token.LEQ || be.Op == token.NEQ):
+					found = true
+				case lhsV && !cj.val && (be.Op == token.GEQ || be.Op == token.GTR || be.Op == token.EQL):
+					found = true
+				case rhsV && cj.val && (be.Op == token.GTR || be.Op == token.GEQ || be.Op == token.NEQ):
+					found = true
+				case rhsV && !cj.val && (be.Op == token.LEQ || be.Op == token.LSS || be.Op == token.EQL):
+					found = true
+				}
+			}
+			return found
+		}
+		var g *core.Graph
+		ord := 0
+		ast.Inspect(fd.Body, func(x ast.Node) bool {
+			ie, ok := x.(*ast.IndexExpr)
+			if !ok || !isText(ie.X) {
+				return true
+			}
+			id, ok := ast.Unparen(ie.Index).(*ast.Ident)
+			if !ok || !adv[info.ObjectOf(id)] {
+				return true
+			}
+			v := info.ObjectOf(id)
+			if g == nil {
+				g = core.NewGraph(info, fd.Body)
+			}
+			ord++
+			n++
+			c.Visit(name)
+			guarded := false
+			check := func(at ast.Node) {
+				b, _ := g.BlockOf(at)
+				if b == nil {
+					return
+				}
+				for _, f := range g.FactsAt(b) {
+					if boundsAbove(f.Cond, f.Value, v) {
+						guarded = true
+					}
+				}
+			}
+			check(ie)
+			st := enclosingStmt(fd.Body, ie)
+			if !guarded && st != nil {
+				check(st)
+			}
+			if !guarded && st != nil {
+				// to the left in the same && chain, or the condition of the for statement the access is the condition of
+				ast.Inspect(st, func(y ast.Node) bool {
+					be, ok := y.(*ast.BinaryExpr)
+					if !ok || be.Op != token.LAND || !(be.Y.Pos() <= ie.Pos() && ie.End() <= be.Y.End()) {
+						return true
+					}
+					if boundsAbove(be.X, true, v) {
+						guarded = true
+					}
+					return true
+				})
+			}
+			c.Check(guarded, fmt.Sprintf("%s / text[%s] #%d is read under an upper bound on %s", name, id.Name, ord, id.Name), ie.Pos(), "no condition on the way to `%s` compares %s with an upper bound: when %s reaches the end of the text the read is out of range", types.ExprString(ie), id.Name, id.Name)
+			return true
+		})
+	}
+	if n == 0 {
+		c.Anchor("indexed reads of the input text by an advancing variable")
+	}
+}
+
+// ---------------------------------------------------------------------------
+// R-NUMCHECK: a lookup by group NUMBER answers only for numbers that exist.
+// GroupNameFromNumber may manufacture a name (strconv.Itoa) or read the name
+// list only for an index it has bounded from above (against capsize / the
+// length of the list); when it delegates to a helper that assumes a valid
+// slot, the helper's unchecked branch must be unreachable from that call (the
+// caller has already dealt with the case the branch tests for).
+// ---------------------------------------------------------------------------
+
+func RNumCheck(c *core.Ctx) {
+	c.Rule("R-NUMCHECK", "in the exported by-number name lookup of Regexp (GroupNameFromNumber) every non-empty answer — strconv.Itoa of the number, an element of the name list, directly or in a helper it returns through — stands under an upper-bound test of the index, or in a helper branch that the caller's own tests exclude: a number that is not a group gets \"\"", 2)
+	p := c.P
+	root := p.Pkg("")
+	info := root.TypesInfo
+	start := p.LookupFunc("", "Regexp.GroupNameFromNumber")
+	sd, _ := p.DeclOf(start)
+	if sd == nil {
+		c.Anchor("regexp2.Regexp.GroupNameFromNumber")
+		return
+	}
+	n := 0
+	type nilFact struct {
+		f   *types.Var
+		nil bool
+	}
+	// facts of the form recv.F == nil / != nil that hold at a node
+	nilFactsAt := func(g *core.Graph, at ast.Node) []nilFact {
+		var out []nilFact
+		b, _ := g.BlockOf(at)
+		if b == nil {
+			return nil
+		}
+		for _, f := range g.FactsAt(b) {
+			for _, cj := range conjunctsOrNegDisjuncts(f) {
+				be, ok := ast.Unparen(cj.e).(*ast.BinaryExpr)
+				if !ok || (be.Op != token.EQL && be.Op != token.NEQ) || !isNilIdent(info, be.Y) {
+					continue
+				}
+				if fv := core.FieldOf(info, be.X); fv != nil {
+					out = append(out, nilFact{fv, (be.Op == token.EQL) == cj.val})
+				}
+			}
+		}
+		return out
+	}
+	boundedAbove := func(g *core.Graph, at ast.Node, idx ast.Expr) bool {
+		id, ok := ast.Unparen(idx).(*ast.Ident)
+		if !ok {
+			return false
+		}
+		v := info.ObjectOf(id)
+		b, _ := g.BlockOf(at)
+		if b == nil {
+			return false
+		}
+		for _, f := range g.FactsAt(b) {
+			for _, cj := range conjunctsOrNegDisjuncts(f) {
+				be, ok := ast.Unparen(cj.e).(*ast.BinaryExpr)
+				if !ok {
+					continue
+				}
+				isV := func(e ast.Expr) bool {
+					i2, ok := ast.Unparen(e).(*ast.Ident)
+					return ok && info.ObjectOf(i2) == v
+				}
+				switch {
+				case isV(be.X) && cj.val && (be.Op == token.LSS || be.Op == token.LEQ):
+					return true
+				case isV(be.X) && !cj.val && (be.Op == token.GEQ || be.Op == token.GTR):
+					return true
+				case isV(be.Y) && cj.val && (be.Op == token.GTR || be.Op == token.GEQ):
+					return true
+				case isV(be.Y) && !cj.val && (be.Op == token.LEQ || be.Op == token.LSS):
+					return true
+				}
+			}
+		}
+		return false
+	}
+	var visit func(fd *ast.FuncDecl, known []nilFact, depth int)
+	visit = func(fd *ast.FuncDecl, known []nilFact, depth int) {
+		if fd == nil || fd.Body == nil || depth > 2 {
+			return
+		}
+		name := core.DeclName(root, fd)
+		g := core.NewGraph(info, fd.Body)
+		ast.Inspect(fd.Body, func(x ast.Node) bool {
+			rs, ok := x.(*ast.ReturnStmt)
+			if !ok || len(rs.Results) != 1 {
+				return true
+			}
+			// feasible under what the caller already established?
+			for _, here := range nilFactsAt(g, rs) {
+				for _, k := range known {
+					if here.f == k.f && here.nil != k.nil {
+						return true // this branch cannot be reached from that call
+					}
+				}
+			}
+			e := ast.Unparen(rs.Results[0])
+			switch y := e.(type) {
+			case *ast.CallExpr:
+				fn := core.Callee(info, y)
+				if fn != nil && fn.FullName() == "strconv.Itoa" && len(y.Args) == 1 {
+					n++
+					c.Visit(name)
+					c.Check(boundedAbove(g, rs, y.Args[0]), fmt.Sprintf("%s / manufactured name #%d is for a bounded number", name, n), rs.Pos(), "`%s` is returned for any value of %s: a number that is not a group gets a name, while GroupNumberFromName / GetGroupNumbers / GroupByNumber say there is no such group", types.ExprString(e), types.ExprString(y.Args[0]))
+					return true
+				}
+				if fn != nil && fn.Pkg() == root.Types {
+					cd, _ := p.DeclOf(fn)
+					visit(cd, append(append([]nilFact(nil), known...), nilFactsAt(g, rs)...), depth+1)
+				}
+			case *ast.IndexExpr:
+				n++
+				c.Visit(name)
+				c.Check(boundedAbove(g, rs, y.Index), fmt.Sprintf("%s / name list element #%d is read under an upper bound", name, n), rs.Pos(), "`%s` is returned without a dominating upper bound on the index", types.ExprString(e))
+			}
+			return true
+		})
+	}
+	visit(sd, nil, 0)
+	if n == 0 {
+		c.Anchor("non-empty answers of GroupNameFromNumber")
+	}
+}
